@@ -31,7 +31,7 @@ TOL = {
     "coupled": (1e-8, 1e-10, 1e-8, 1e-10, 1e-7, 1e-10),
 }
 
-FAULT_KINDS = ("fd_excursion", "cs_excursion", "scribble", "abort")
+FAULT_KINDS = ("fd_excursion", "cs_excursion", "scribble", "abort")  # "abort" covers injected AnalysisError and solver starvation
 
 
 # ------------------------------------------------------------------------------------------------
@@ -114,7 +114,11 @@ def gen_history(seed, tier="quick", zoo_filter=None, faults_on=True):
                         "factor": round(rng.uniform(0.0, 3.0), 3), "donor": rng.randrange(len(points)),
                         "nseed": rng.randrange(10**6)})
         if v > 0 and rng.random() < p_abort:
-            ops.append({"op": "abort", "target": "run_model", "frac": round(rng.uniform(0.02, 0.98), 4)})
+            if model.coupled and rng.random() < 0.4:
+                # the natural failed evaluation: the coupled solver runs out of sweeps and raises AnalysisError
+                ops.append({"op": "starve", "maxiter": rng.randint(1, 4)})
+            else:
+                ops.append({"op": "abort", "target": "run_model", "frac": round(rng.uniform(0.02, 0.98), 4)})
         ops.append({"op": "run_model"})
         if rng.random() < p_rerun:
             ops.append({"op": "run_model"})
@@ -407,7 +411,7 @@ def execute(hist, stop_at_first=True, known=None, collect=True):
         legal = True
         if kind in ("linearize", "compute_totals", "check_partials", "check_totals") and not converged:
             legal = False
-        if kind in ("run_model", "scribble", "abort", "run_driver") and cur is None:
+        if kind in ("run_model", "scribble", "abort", "run_driver", "starve") and cur is None:
             legal = False
         if kind == "run_driver" and not spec.get("driver"):
             legal = False
@@ -546,6 +550,28 @@ def execute(hist, stop_at_first=True, known=None, collect=True):
                         converged = True
                         visited_run.append(cur)
                 log.add("abort", target, at, aborted, inj.fired[1:] if inj.fired else None)
+            elif kind == "starve":
+                import openmdao.api as om
+
+                saved = []
+                for path in model.coupled:
+                    nl = prob.model._get_subsystem(path).nonlinear_solver
+                    saved.append((nl, nl.options["maxiter"]))
+                    nl.options["maxiter"] = int(op["maxiter"])
+                failed = False
+                try:
+                    with _quiet():
+                        prob.run_model()
+                except om.AnalysisError:
+                    failed = True
+                finally:
+                    for nl, mi in saved:
+                        nl.options["maxiter"] = mi
+                converged = False
+                if failed:
+                    fired("starve")
+                    probe("solver_ran_out_of_sweeps_then_rerun")
+                log.add("starve", op["maxiter"], failed)
             elif kind == "run_driver":
                 with _quiet():
                     _run_driver(model, op["maxiter"])
